@@ -20,13 +20,15 @@ Ltac step_sqr M R :=
           match goal with x := ?a * 2 |- _ => subst x; fold_doubled a end
         | step M R ].
 
-Theorem fe_sqr_inner_correct a0 a1 a2 a3 a4 :
+(* weakest-precondition form (the continuation is arbitrary), so that callers translated as calls compose by [apply] *)
+Theorem fe_sqr_inner_wp a0 a1 a2 a3 a4 (Q : Z -> Z -> Z -> Z -> Z -> Prop) :
   0 <= a0 < 2^56 -> 0 <= a1 < 2^56 -> 0 <= a2 < 2^56 -> 0 <= a3 < 2^56 -> 0 <= a4 < 2^52 ->
-  fe_sqr_inner_k a0 a1 a2 a3 a4 (fun r0 r1 r2 r3 r4 =>
-  (0 <= r0 < 2^52 /\ 0 <= r1 < 2^52 /\ 0 <= r2 < 2^52 /\ 0 <= r3 < 2^52 /\ 0 <= r4 < 2^49) /\
-  (val5 r0 r1 r2 r3 r4 - val5 a0 a1 a2 a3 a4 * val5 a0 a1 a2 a3 a4) mod P256 = 0).
+  (forall r0 r1 r2 r3 r4,
+    (0 <= r0 < 2^52 /\ 0 <= r1 < 2^52 /\ 0 <= r2 < 2^52 /\ 0 <= r3 < 2^52 /\ 0 <= r4 < 2^49) /\
+    (val5 r0 r1 r2 r3 r4 - val5 a0 a1 a2 a3 a4 * val5 a0 a1 a2 a3 a4) mod P256 = 0 -> Q r0 r1 r2 r3 r4) ->
+  fe_sqr_inner_k a0 a1 a2 a3 a4 Q.
 Proof.
-  intros Ha0 Ha1 Ha2 Ha3 Ha4.
+  intros Ha0 Ha1 Ha2 Ha3 Ha4 HQ.
   assert (D0 : u64 (a0 * 2) = a0 * 2) by (unfold u64; apply Z.mod_small; lia).
   assert (D1 : u64 (a1 * 2) = a1 * 2) by (unfold u64; apply Z.mod_small; lia).
   assert (D2 : u64 (a2 * 2) = a2 * 2) by (unfold u64; apply Z.mod_small; lia).
@@ -54,7 +56,7 @@ Proof.
      + (2*(a1*a4) + 2*(a2*a3)) * 2^260
      + (2*(a2*a4) + a3*a3) * 2^312 + (2*(a3*a4)) * 2^364 + a4*a4 * 2^416)
     by (unfold val5; ring).
-  rewrite Hprod; clear Hprod.
+  rewrite Hprod in HQ; clear Hprod. revert HQ.
   cbv beta delta [fe_sqr_inner_k].
   rewrite ?D0, ?D1, ?D2, ?D3, ?D4. clear D0 D1 D2 D3 D4.
   replace (a0 * 2 * a3) with (2 * (a0 * a3)) by ring.
@@ -65,9 +67,11 @@ Proof.
   atom a0 a0 p00. atom a0 a1 p01. atom a0 a2 p02. atom a0 a3 p03. atom a0 a4 p04.
   atom a1 a1 p11. atom a1 a2 p12. atom a1 a3 p13. atom a1 a4 p14.
   atom a2 a2 p22. atom a2 a3 p23. atom a2 a4 p24. atom a3 a3 p33. atom a3 a4 p34. atom a4 a4 p44.
+  intro HQ.
   change (u64 (fe_sqr_inner_R * 2^12)) with (fe_sqr_inner_R * 2^12).
   change (fe_sqr_inner_R / 2^4) with 0x1000003D1.
   repeat (step_sqr fe_sqr_inner_M fe_sqr_inner_R).
+  apply HQ; clear HQ.
   shifted64_small fe_sqr_inner_R.
   repeat match goal with H : hide _ |- _ => clear H end.
   split.
@@ -86,3 +90,11 @@ Proof.
     try (apply Z.divide_mul_l; apply Z.mod_divide; [unfold P256; lia | vm_compute; reflexivity]);
     try (apply Z.divide_opp_r; apply Z.divide_mul_l; apply Z.mod_divide; [unfold P256; lia | vm_compute; reflexivity])).
 Qed.
+
+Theorem fe_sqr_inner_correct a0 a1 a2 a3 a4 :
+  0 <= a0 < 2^56 -> 0 <= a1 < 2^56 -> 0 <= a2 < 2^56 -> 0 <= a3 < 2^56 -> 0 <= a4 < 2^52 ->
+  fe_sqr_inner_k a0 a1 a2 a3 a4 (fun r0 r1 r2 r3 r4 =>
+  (0 <= r0 < 2^52 /\ 0 <= r1 < 2^52 /\ 0 <= r2 < 2^52 /\ 0 <= r3 < 2^52 /\ 0 <= r4 < 2^49) /\
+  (val5 r0 r1 r2 r3 r4 - val5 a0 a1 a2 a3 a4 * val5 a0 a1 a2 a3 a4) mod P256 = 0).
+Proof. intros. apply fe_sqr_inner_wp; try assumption. intros r0 r1 r2 r3 r4 H'. exact H'. Qed.
+
